@@ -68,7 +68,10 @@ impl RestorePlan {
 
                     paths.reserve_exact(1);
                     paths.push(path.clone());
-                    to_restore.insert(path, RestoringFile {hash, size, paths});
+                    if to_restore.insert(path.clone(), RestoringFile {hash, size, paths}).is_some() {
+                        error!("The backup metadata has several records for {:?}.", path);
+                        ok = false;
+                    }
                 }
             } else {
                 if to_find.is_empty() {
@@ -83,11 +86,14 @@ impl RestorePlan {
 
                     if let Some(paths) = to_find.remove(&file.hash) {
                         extern_files.extend(paths.iter().cloned());
-                        to_restore.insert(file.path.into(), RestoringFile {
+                        if to_restore.insert(file.path.clone().into(), RestoringFile {
                             hash: file.hash,
                             size: file.size,
                             paths
-                        });
+                        }).is_some() {
+                            error!("{:?} backup metadata has several records for {:?}.", backup.name, file.path);
+                            ok = false;
+                        }
 
                         if to_find.is_empty() {
                             break;
